@@ -36,6 +36,9 @@ type scanSpec struct {
 	// EmptyFragments allows zero-cell partial results after a non-empty
 	// fragment of the same row.
 	EmptyFragments bool `json:"empty_fragments,omitempty"`
+	// Twice runs the same scan a second time against the same cached region objects
+	// (a scan must not leave anything behind that changes the next one).
+	Twice bool `json:"twice,omitempty"`
 }
 
 func (s scanSpec) regionBounds(i int) (start, stop []byte) {
@@ -159,6 +162,16 @@ func newScanModel(spec scanSpec) *scanModel {
 		}
 	}
 	return m
+}
+
+// reset forgets the server-side state of a finished scan but keeps the region objects
+// (the client's location cache hands the same objects to every scan).
+func (m *scanModel) reset() {
+	m.mu.Lock()
+	defer m.mu.Unlock()
+	m.scanners = map[uint64]*srvScanner{}
+	m.tapePos, m.requests, m.ended = 0, 0, false
+	m.trace = nil
 }
 
 func (m *scanModel) tape() byte {
